@@ -1,6 +1,6 @@
 """C20 - configuration layers override each other in the documented order."""
 from vf.job import Job
-from vf.util import fold, untraced
+from vf.util import fold, untraced, pick_int
 
 META = {
     'rule': 'Symbolic presence bits for the overridable layers (global type, global syntax, call config) and symbolic values [S]; key and '
@@ -9,7 +9,8 @@ META = {
     'bounds': {
         'quick': '3 sections (options/snippets/variables) x 4-5 keys x 18 syntaxes (all known of both types + xhtml + 2 unknown names) x 2^3 '
                  'presence subsets (the two built-in layers vary with key and syntax: 2^5 combinations in all), values 1..2 chars; '
-                 'expand() observation for selfClosingStyle, a snippet and a variable',
+                 'expand() observation for selfClosingStyle, a snippet and a variable; sequences of two expand() calls with independent layer '
+                 'assignments (first call: global[type] absent/xhtml/xml, the other layers of both calls absent/xhtml/xml, syntax html/xml, config/global passed, empty or omitted)',
         'thorough': 'same',
     },
     'outside_claim': ['keys outside the pools', 'non-dict layer values'],
@@ -189,6 +190,79 @@ def mk_observed(what):
             'functions': ['emmet.expand (Config construction from user and global config)', 'config.merged_data']}
 
 
+def mk_sequence(gt1):
+    """Two expand() calls one after the other, each with its own layer assignment: the second call must see exactly its own layers
+    (a layer mentioned only by the first call must not survive into the second)."""
+    import emmet
+    styles = ['xhtml', 'xml']
+    closing = {'html': '<ex>', 'xhtml': '<ex />', 'xml': '<ex/>'}
+    syns = ['html', 'xml']
+    key = 'output.selfClosingStyle'
+
+    def one(si, gt, gs, u, form):
+        syntax = syns[si]
+        glob = {}
+        if gt >= 0:
+            glob['markup'] = {'options': {key: styles[gt]}}
+        if gs >= 0:
+            glob[syntax] = {'options': {key: styles[gs]}}
+        user = {} if syntax == 'html' else {'syntax': syntax}
+        if u >= 0:
+            user['options'] = {key: styles[u]}
+        eff = None
+        for l in (u, gs, gt):
+            if l >= 0:
+                eff = styles[l]
+                break
+        if eff is None:
+            eff = builtin_value('markup', syntax, 'options', key)
+        with untraced():
+            if form == 2 and not user and not glob:
+                out = emmet.expand('ex/')
+            elif form >= 1 and not glob:
+                out = emmet.expand('ex/', user)
+            else:
+                out = emmet.expand('ex/', user, glob)
+        return out, closing[eff]
+
+    def harness(wrong):
+        def h(s1: int, gs1: int, u1: int, f1: int, s2: int, gt2: int, gs2: int, u2: int, f2: int):
+            for x in (gs1, u1, gt2, gs2, u2):
+                if not (-1 <= x <= 1):
+                    return 'skip'
+            if not (0 <= s1 <= 1 and 0 <= s2 <= 1 and 0 <= f1 <= 2 and 0 <= f2 <= 2):
+                return 'skip'
+            # the form only matters when the global config (and the call config) is empty: keep one representative otherwise
+            if f1 and (gt1 >= 0 or gs1 >= 0):
+                return 'skip'
+            if f2 and (gt2 >= 0 or gs2 >= 0):
+                return 'skip'
+            if f1 == 2 and (u1 >= 0 or s1 != 0):
+                return 'skip'
+            if f2 == 2 and (u2 >= 0 or s2 != 0):
+                return 'skip'
+            gs1, u1, gt2, gs2, u2 = [pick_int(x, -1, 1) for x in (gs1, u1, gt2, gs2, u2)]
+            s1, s2 = pick_int(s1, 0, 1), pick_int(s2, 0, 1)
+            f1, f2 = pick_int(f1, 0, 2), pick_int(f2, 0, 2)
+            out1, exp1 = one(s1, gt1, gs1, u1, f1)
+            if out1 != exp1:
+                return 'first_call_wrong_layer'
+            out2, exp2 = one(s2, gt2, gs2, u2, f2)
+            if wrong:
+                exp2 = exp2 + ' '
+            if out2 != exp2:
+                return 'second_call_sees_layers_of_the_first'
+            return True
+        return h
+    z = dict(s1=0, gs1=-1, u1=-1, f1=0, s2=0, gt2=-1, gs2=-1, u2=-1, f2=0)
+    return {'fn': harness(False), 'twin': harness(True), 'witnesses': [z, dict(z, s2=1, gt2=0, u2=1), dict(z, f2=2), dict(z, f1=1, f2=1, u1=0)],
+            'assumptions': ['two calls expand("ex/", config, global) in one interpreter; global[markup] of the first call is %d (-1 absent, else '
+                            'xhtml/xml); every other layer of both calls absent, xhtml or xml (solver-chosen); syntax html or xml; an empty '
+                            'global config is passed as {}, omitted, or config and global are both omitted; the calls are concrete per path and run '
+                            'outside the tracer' % gt1],
+            'functions': ['emmet.expand (default arguments, Config construction)', 'config.Config.__init__', 'config.merged_data']}
+
+
 def jobs(tier):
     out = []
     for typ in ('markup', 'stylesheet'):
@@ -198,4 +272,7 @@ def jobs(tier):
     for what in ('style', 'snippet', 'variable'):
         out.append(Job('C20-b/observed/%s' % what, 'vf.props.c20:mk_observed', dict(what=what), shape='H',
                        bound='4^3 layer assignments x syntaxes', budget=2400, weight=400))
+    for gt1 in (-1, 0, 1):
+        out.append(Job('C20-c/sequence/gt1=%d' % gt1, 'vf.props.c20:mk_sequence', dict(gt1=gt1), shape='H',
+                       bound='2 calls x layer assignments', budget=2400, weight=450))
     return out
